@@ -16,6 +16,10 @@ static ON: AtomicBool = AtomicBool::new(false);
 static MAX: AtomicUsize = AtomicUsize::new(0);
 
 pub const ABSURD: usize = 1 << 40;
+/// a single request of this size or more that the system refuses (workers run under RLIMIT_AS) is
+/// marked as well: the harness never asks for anything near it, so the refusal - and the abort that
+/// follows - is the doing of the code under test (e.g. a pre-allocation sized by a forged count)
+pub const LARGE: usize = 256 << 20;
 pub const ABSURD_MARKER: &str = "CASIM-ABSURD-ALLOC ";
 
 #[cold]
@@ -57,7 +61,11 @@ unsafe impl GlobalAlloc for Counting {
         if l.size() >= ABSURD {
             absurd(l.size());
         }
-        System.alloc(l)
+        let p = System.alloc(l);
+        if p.is_null() && l.size() >= LARGE {
+            absurd(l.size());
+        }
+        p
     }
     unsafe fn alloc_zeroed(&self, l: Layout) -> *mut u8 {
         if ON.load(Ordering::Relaxed) {
@@ -66,7 +74,11 @@ unsafe impl GlobalAlloc for Counting {
         if l.size() >= ABSURD {
             absurd(l.size());
         }
-        System.alloc_zeroed(l)
+        let p = System.alloc_zeroed(l);
+        if p.is_null() && l.size() >= LARGE {
+            absurd(l.size());
+        }
+        p
     }
     unsafe fn dealloc(&self, p: *mut u8, l: Layout) {
         System.dealloc(p, l)
@@ -78,7 +90,11 @@ unsafe impl GlobalAlloc for Counting {
         if new >= ABSURD {
             absurd(new);
         }
-        System.realloc(p, l, new)
+        let q = System.realloc(p, l, new);
+        if q.is_null() && new >= LARGE {
+            absurd(new);
+        }
+        q
     }
 }
 
